@@ -233,7 +233,7 @@ fn main() {
     let mut rep = Report::new(
         "crashmc",
         "C09",
-        "for every configuration (packaging {OneFile,TwoFiles,NoConcat} x destination {absent, holding an older complete container} x compression {none,zstd}): a fault-free recording run gives the write history (N units: bytes written + metadata operations on the destination directory, through an LD_PRELOAD shim); then a fault at unit n for n in the quick grid (every metadata unit, every 16th byte, 6 bytes around every write-call boundary) or every n in [0,N] (thorough) x {process death, EIO, ENOSPC, one transient EIO (a short write, one failing call, then everything works again)}; plus process death right after every metadata operation the shim sees, and every rename (raw syscalls, reached through strace's syscall tampering) failing with EIO / ENOENT or killing the process; after each run the destination is absent / byte-identical to the previous file / a complete new container that opens, dumps to the model with no pack missing and verifies; non-trivial = a fault that fired (n < N)",
+        "for every configuration (packaging {OneFile,TwoFiles,NoConcat} x destination {absent, holding an older complete container} x compression {none,zstd}, plus a container with a stored cluster above the 8 KiB writer buffer and an extra content pack file): a fault-free recording run gives the write history (N units: bytes written + metadata operations on the destination directory, through an LD_PRELOAD shim); then a fault at unit n for n in the quick grid (every metadata unit, every 16th byte, 6 bytes around every write-call boundary) or every n in [0,N] (thorough) x {process death, EIO, ENOSPC, one transient EIO (a short write, one failing call, then everything works again), one short write with no error at all}; plus process death right after every metadata operation the shim sees, and every rename (raw syscalls, reached through strace's syscall tampering) failing with EIO / ENOENT or killing the process; after each run the destination is absent / byte-identical to the previous file / a complete new container that opens, dumps to the model with no pack missing and verifies; non-trivial = a fault that fired (n < N)",
     );
     if !shim_path().exists() {
         rep.machinery_errors.push(format!("{} not built", shim_path().display()));
@@ -248,6 +248,10 @@ fn main() {
                     continue;
                 }
                 configs.push(Config { shape: "multi", old_shape: "small", comp, packaging, preexisting });
+                // a stored cluster above the writer's buffer size and an extra pack file
+                if comp == Comp::Zstd(5) && !preexisting && (t || packaging != "TwoFiles") {
+                    configs.push(Config { shape: "mid", old_shape: "small", comp, packaging, preexisting });
+                }
             }
         }
     }
@@ -384,14 +388,14 @@ fn main() {
         if let Some(r) = &replay {
             points = vec![r["n"].as_i64().unwrap()];
         }
-        const MODES: [&str; 8] = ["kill", "eio", "enospc", "eio-once", "killafter", "rename-eio", "rename-enoent", "rename-kill"];
+        const MODES: [&str; 9] = ["kill", "eio", "enospc", "eio-once", "short-once", "killafter", "rename-eio", "rename-enoent", "rename-kill"];
         let modes: Vec<&str> = match &replay {
             Some(r) => vec![MODES.iter().copied().find(|m| r["mode"] == json!(m)).unwrap_or("kill")],
-            None => vec!["kill", "eio", "enospc", "eio-once"],
+            None => vec!["kill", "eio", "enospc", "eio-once", "short-once"],
         };
         let mut jobs: Vec<(i64, &str)> = vec![];
         for &m in &modes {
-            if m == "kill" || m == "eio" || m == "enospc" || m == "eio-once" {
+            if m == "kill" || m == "eio" || m == "enospc" || m == "eio-once" || m == "short-once" {
                 for &p in &points {
                     jobs.push((p, m));
                 }
